@@ -101,6 +101,7 @@ func (st *State) resolveType(pkgPath, s string) types.Type {
 	case "real":
 		return tReal
 	}
+	s = strings.ReplaceAll(s, "chanstruct{}", "chan struct{}")
 	ex, err := parser.ParseExpr(s)
 	if err != nil {
 		st.unsupported("cannot parse type %q: %v", s, err)
@@ -164,6 +165,10 @@ func (st *State) resolveTypeExpr(pkgPath string, ex ast.Expr) types.Type {
 			}
 		}
 		st.unsupported("unknown qualified type")
+	case *ast.StructType:
+		if x.Fields == nil || len(x.Fields.List) == 0 {
+			return types.NewStruct(nil, nil)
+		}
 	case *ast.IndexExpr, *ast.IndexListExpr:
 		// generic instantiation: look up by the printed form among SSA-known types is not supported
 	}
